@@ -155,12 +155,17 @@ Section Parse.
       destruct (ustr_eqb t k'); auto.
   Qed.
 
-  Theorem parse_roundtrip : forall fuel allow interop d ci Sv dfl hc,
+  (* the round trip, and what else is preserved: plainness, absence of reserved names, the type, the presence of an id *)
+  Theorem parse_roundtrip_full : forall fuel allow interop d ci Sv dfl hc,
     plain_dict d = true ->
     mem_ustr ci pids = true ->
     (amem id_key d = true \/ forall t, alookup type_key d = Some (JStr t) -> amem t (robservables (wreg21 w)) = false) ->
     RUN fuel (RParse allow interop None d) = Ok (PObject ci Sv dfl hc) ->
-    RUN fuel (RParse allow interop None (omem (PObject ci Sv dfl hc))) = Ok (PObject ci Sv dfl hc).
+    RUN fuel (RParse allow interop None (omem (PObject ci Sv dfl hc))) = Ok (PObject ci Sv dfl hc) /\
+    (plain_dict (omem (PObject ci Sv dfl hc)) = true /\ reserved_kw (omem (PObject ci Sv dfl hc)) = Ok tt /\
+     (exists t, alookup type_key d = Some (JStr t) /\ alookup type_key (omem (PObject ci Sv dfl hc)) = Some (JStr t)) /\
+     (amem id_key d = true -> amem id_key (omem (PObject ci Sv dfl hc)) = true) /\
+     (forall n, amem n (omem (PObject ci Sv dfl hc)) = true -> amem n Sv = true)).
   Proof.
     intros fuel allow interop d ci Sv dfl hc Hp Hmp Hid H.
     assert (Hm : mem_ustr ci ids = true).
@@ -205,7 +210,7 @@ Section Parse.
       as [c' [Efc' [Hcok Hcg]]].
     rewrite Efc in Efc'. inv Efc'.
     pose proof (run_construct_idem vr ev w pattern_ok selectors_ok Hpad ids (closed_ok_weaken vr w ids Hclosed) (S f') k allow interop d None _ Hkm Hp Hidk Er)
-      as [_ [_ [Hre _]]].
+      as [_ [Hresw [Hre Hplw]]].
     pose proof (run_construct_idem vr ev w pattern_ok selectors_ok Hpad ids (closed_ok_weaken vr w ids Hclosed) f') as Hclaim.
     pose proof (claim_rc vr ev w pattern_ok selectors_ok ids f' Hclaim) as Hrc.
     unfold class_ok in Hcok.
@@ -307,11 +312,30 @@ Section Parse.
                         (S f') d Sv _ hc sv_key sl Hp Hcg Esvd Esv Hdn) as [_ Hfx].
             exact (Hfx _ _ Eknd Edf). }
         rewrite (Hnotdfl sv_key _ Es) by (intros b Eb; discriminate). cbn [encode]. reflexivity. }
-    (* put the pieces together *)
-    cbv zeta in H. fold found in H. rewrite Efound in H. rewrite Er in H. cbn [pval_has_custom] in H.
-    remember (S f') as f0 eqn:Ef0.
-    cbn [run]. change (u "type") with type_key. rewrite Htype'. unfold bind. rewrite Hdet'.
-    cbv zeta. rewrite Ecf. rewrite Hre. cbn [pval_has_custom].
-    destruct (vr_parse_guard_custom vr && negb allow && hc); [discriminate | reflexivity].
+    split.
+    - (* put the pieces together *)
+      cbv zeta in H. fold found in H. rewrite Efound in H. rewrite Er in H. cbn [pval_has_custom] in H.
+      remember (S f') as f0 eqn:Ef0.
+      cbn [run]. change (u "type") with type_key. rewrite Htype'. unfold bind. rewrite Hdet'.
+      cbv zeta. rewrite Ecf. rewrite Hre. cbn [pval_has_custom].
+      destruct (vr_parse_guard_custom vr && negb allow && hc); [discriminate | reflexivity].
+    - split; [exact Hplw |]. split; [exact Hresw |]. split; [exists t; auto |]. split.
+      + intros Eidd. pose proof (Hgiven _ Eidd) as Hs. unfold amem in *. rewrite alookup_written.
+        destruct (alookup id_key Sv) as [v0 |] eqn:Ev; try discriminate.
+        destruct (mem_ustr id_key (defaulted_names c' Sv)) eqn:Ed; auto.
+        destruct (mem_defaulted vr (nestable w ids) c' Hnd Hslots _ _ Ed) as [sl [b [E1 [E2 _]]]].
+        rewrite E1 in Hidslot. rewrite E2 in Hidslot. discriminate.
+      + intros n Hn. unfold amem in *. rewrite alookup_written in Hn. destruct (alookup n Sv); [reflexivity | discriminate].
+  Qed.
+
+  Theorem parse_roundtrip : forall fuel allow interop d ci Sv dfl hc,
+    plain_dict d = true ->
+    mem_ustr ci pids = true ->
+    (amem id_key d = true \/ forall t, alookup type_key d = Some (JStr t) -> amem t (robservables (wreg21 w)) = false) ->
+    RUN fuel (RParse allow interop None d) = Ok (PObject ci Sv dfl hc) ->
+    RUN fuel (RParse allow interop None (omem (PObject ci Sv dfl hc))) = Ok (PObject ci Sv dfl hc).
+  Proof.
+    intros fuel allow interop d ci Sv dfl hc Hp Hmp Hid H.
+    exact (proj1 (parse_roundtrip_full fuel allow interop d ci Sv dfl hc Hp Hmp Hid H)).
   Qed.
 End Parse.
